@@ -93,6 +93,17 @@ def changed_drops_entry(ch):
                  and not c.startswith('EXCEPT(')]
         if dels:
             dropping += 1
+            # `del d[k]` raises KeyError when the entry is gone (it is, after the
+            # first change): the path must have established that the entry is this
+            # object, or use pop() with a default
+            hard = [e for e in ps.dels() if nt(e.r) == 'InstanceDeclarations[self.__args]'] + \
+                [e for e in ps.events if e.kind == 'call' and
+                 nt(e.r) == 'InstanceDeclarations.pop(self.__args)']
+            if hard and True not in isme and not any(
+                    c.startswith('EXCEPT(KeyError') for c, t, p in ps.order):
+                probs.append('the entry is deleted without having established that it is '
+                             '(still) there: the next change raises KeyError out of the '
+                             'declaration call that caused it')
             continue
         if True in own or False in isme:
             continue
